@@ -42,3 +42,14 @@ Print Assumptions C16_context_of_this_call.
 Theorem C16_bound_at_init_refuted : exists (c0 c1 : nat) ops, handed nat CtxAtInit c0 c0 ops <> current_at_runs nat c0 ops.
 Proof. exact bound_at_init_refuted. Qed.
 Print Assumptions C16_bound_at_init_refuted.
+
+(* ---- several fork runners alive in one interpreter (Labs used from several threads): whatever runners are built and closed in
+   between, every worker forked by a runner that is still open finds the memory of its runner in the registry — given that close()
+   removes the runner's own entry only (read from ForkProcessRunner.close). *)
+Require Import LT.Model.Scope LT.Proofs.ScopeProofs.
+Theorem C16_fork_memory_survives_other_closes : forall ops, forks_ok fork_close_src [] [] ops = true.
+Proof. exact (fun ops => registry_close_own ops [] [] (fun u H => match H with end)). Qed.
+Print Assumptions C16_fork_memory_survives_other_closes.
+Theorem C16_close_all_refuted : exists ops, forks_ok CloseAll [] [] ops = false.
+Proof. exact registry_close_all_refuted. Qed.
+Print Assumptions C16_close_all_refuted.
